@@ -75,6 +75,9 @@ def gen_channel(rng, bnodes):
         ch["parts"] = rng.randint(2, 3)
     ch["split_seed"] = rng.randrange(1 << 20)
     ch["turtle_grouped"] = rng.random() < 0.7
+    ch["rotate_labels"] = rng.random() < 0.5
+    ch["use_base"] = rng.random() < 0.3
+    ch["full_nonhttp"] = rng.random() < 0.5      # urn:/mailto: IRIs written as <...> instead of prefixed names
     if tr in ("gz", "xz") and rng.random() < 0.35:
         ch["members"] = rng.randint(2, 3)
     if tr == "zip" and rng.random() < 0.5:
@@ -91,7 +94,8 @@ def generate(rng, tier, index):
     if schema:
         triples = gen.gen_schema_graph(rng, n_nodes=n_nodes, n_classes=rng.randint(1, 3), n_props=rng.randint(1, 4), bnodes=bnodes)
     else:
-        triples = gen.gen_graph(rng, n_nodes=n_nodes, n_classes=rng.randint(1, 3), n_props=rng.randint(1, 5), bnodes=bnodes, kinds=kinds)
+        triples = gen.gen_graph(rng, n_nodes=n_nodes, n_classes=rng.randint(1, 3), n_props=rng.randint(1, 5), bnodes=bnodes, kinds=kinds,
+                                prop_namespaces=rng.choice([(gen.EX,), (gen.EX, gen.OTHER), (gen.EX, "urn:ex:vocab:")]), clash_props=0.3)
     tp = gen.CUSTOM_TYPE if rng.random() < 0.12 else gen.RDF_TYPE
     triples = gen.retype(gen.ensure_class(triples), tp)
     target = gen.gen_target(rng, triples, allow_shape_map=False, type_prop=tp)
@@ -106,15 +110,15 @@ def generate(rng, tier, index):
             "channels": channels}
 
 
-def _doc(triples, fmt, grouped=True):
+def _doc(triples, fmt, grouped=True, salt=0, base=None, full_nonhttp=False):
     if fmt == "nt":
         return gen.to_nt(triples)
     if fmt == "tsv_spo":
         return gen.to_tsv(triples)
     if fmt in ("turtle", "n3"):
-        return gen.to_turtle(triples, group=grouped)
+        return gen.to_turtle(triples, group=grouped, label_salt=salt, base=base, full_nonhttp=full_nonhttp)
     if fmt == "turtle_iter":
-        return gen.to_turtle(triples, group=grouped, dialect="iter")
+        return gen.to_turtle(triples, group=grouped, dialect="iter", label_salt=salt, base=base, full_nonhttp=full_nonhttp)
     if fmt == "xml":
         return gen.to_rdfxml(triples)
     if fmt == "json-ld":
@@ -142,7 +146,20 @@ def build_channel(sim, triples, ch, tag):
         return {"rdflib_graph": gen.to_rdflib_graph(triples)}
     if tr == "store":
         return {"rdflib_graph": gen.to_rdflib_graph(triples, cls=SimStore).configure(sim, ch["order_seed"], independent=True)}
-    docs = [_doc(b, fmt, ch.get("turtle_grouped", True)) for b in _partition(triples, ch.get("parts", 1), ch.get("split_seed", 0))]
+    # every document of a multi-part delivery is self-contained: its own prefix labels (the same label may name
+    # different namespaces in different parts) and, for some parts, its own @base
+    parts = _partition(triples, ch.get("parts", 1), ch.get("split_seed", 0))
+    based = [False] * len(parts)
+    if ch.get("use_base"):
+        # documents that declare @base come first, documents with non-http IRIs (which must stay base-free, see
+        # gen.to_turtle) after them: a reader that carries header state from one document to the next meets it here
+        def dirty(b):
+            return any(t[0] == "i" and not t[1].startswith("http") for tr in b for t in tr)
+        parts = [b for b in parts if not dirty(b)] + [b for b in parts if dirty(b)]
+        based = [not dirty(b) for b in parts]
+    docs = [_doc(b, fmt, ch.get("turtle_grouped", True), salt=(i if ch.get("rotate_labels") else 0),
+                 base=(gen.EX if based[i] else None), full_nonhttp=ch.get("full_nonhttp", False))
+            for i, b in enumerate(parts)]
     ext = EXT[fmt]
     kw = {"input_format": fmt}
     if tr == "raw":
